@@ -21,8 +21,21 @@ def build(ctx, family, only_step=None):
     if t:
         for w in widths:
             objs.append((pre + '_w%d.o' % w, [MTU], ctx.flags_scaled(w, avx512=avx512, extra=inc + ['-DKNS=mdl', '-c']), []))
+    # other build configurations of the SAME kernels: the AVX2 kernels inside an AVX-512 build (-mavx512f -D__AVX512__) and under
+    # -march=native (whatever ISA macros this CPU defines, e.g. __AVX512VL__): code behind #ifdef is code too
+    xcfg = []
+    if not avx512:
+        if ctx.hardware_avx512:
+            xcfg.append(('a512', ctx.flags_native(avx512=True, extra=inc)))
+        xcfg.append(('march', ctx.flags_native(avx512=False, extra=inc + ['-march=native'])))
+        for tag, fl in xcfg:
+            objs.append((pre + '_nat_%s.o' % tag, [MTU], fl + ['-DKNS=nat', '-c'], []))
+    ctx.xcfg = [t_ for t_, _ in xcfg]
     o = ctx.compile_many(objs)
     jobs = []
+    for tag, fl in xcfg:
+        if pre + '_nat_%s.o' % tag in o:
+            jobs.append((pre + '_native_' + tag, [MAIN, o[pre + '_nat_%s.o' % tag], os.path.join(vlib.SRC, 'goldilocks_base_field.cpp')], fl + ['-DHAVE_NAT'], ['-lgmp']))
     if ctx.native_ok:
         jobs.append((pre + '_native', [MAIN, o[pre + '_nat.o'], os.path.join(vlib.SRC, 'goldilocks_base_field.cpp')], ctx.flags_native(avx512=avx512, extra=inc + ['-DHAVE_NAT']), ['-lgmp']))
     if t:
@@ -51,6 +64,11 @@ def explore(ctx):
         ctx.run_step(pre + '_native', ctx.bins[pre + '_native'], fa)
     else:
         ctx.uncovered.append('native AVX-512 execution (no avx512f on this CPU)')
+    for tag in getattr(ctx, 'xcfg', []):
+        n = pre + '_native_' + tag
+        if n in ctx.bins:
+            ctx.run_step(n, ctx.bins[n], fa)
+            ctx.bounds.setdefault('other build configurations of the same kernels', []).append({'a512': '-mavx512f -D__AVX512__', 'march': '-march=native'}[tag])
     for w in ctx.widths:
         n = pre + '_w%d' % w
         if n in ctx.bins:
